@@ -152,7 +152,7 @@ def _spec_hash(files, cfg, extra, data_files=None):
 
 
 def run_tlc(module, cfg, scratch, data_files=None, workers=16, timeout=1800, simulate=None, cache=False, depth=None, seed=None,
-            xss="64m", keep_raw=False, defs=None):
+            xss="64m", keep_raw=False, defs=None, tolerate_errors=False):
     """Runs TLC on spec/<module>.tla with the given cfg text in a scratch copy of /verif/spec.
 
     Records printed by the specification with PrintT(ToJson(..)) are returned parsed. With cache=True the parsed output is
@@ -228,6 +228,11 @@ def run_tlc(module, cfg, scratch, data_files=None, workers=16, timeout=1800, sim
     if keep_raw:
         res.raw = text
     if not res.ok and not res.violated:
+        if tolerate_errors and res.errors:
+            # a recorded trace TLC cannot even evaluate (a field the specification reads is missing or of another shape): the caller
+            # treats it like a rejected trace
+            res.violated = ["EvaluationError: " + res.errors[0][:200]]
+            return res
         raise Infra("TLC failed on %s:\n%s" % (module, res.tail[-3000:]))
     shutil.rmtree(wd, ignore_errors=True)
     if ck:
